@@ -27,6 +27,10 @@ def defects_of(label):
         return ["descendant-range-zero-width"]
     if rest == "fallback-lost":
         return ["first-child-for-byte-fallback"]
+    if rest == "hidden-missing-printed":
+        return ["sexp-hidden-missing"]
+    if rest == "error-parent-has-no-field-map":
+        return ["child-by-field-error-parent"]
     return [label]
 
 
@@ -81,6 +85,12 @@ def run(ctx):
     last = out.strip().split("\n")[-1] if out.strip() else "explorer silent"
     ctx.log(last)
     if rc != 0:
+        m = re.search(r"PARSE-TIMEOUT after (\d+)s spec=(.*)", out)
+        if m:
+            spec = m.group(2).strip()
+            ctx.violation("judge", "termination: a parse did not return within %s s of wall-clock time (no progress callback reached): %s" % (m.group(1), spec[:200]),
+                          {"spec": spec, "clause": "termination:timeout"},
+                          fingerprint={"lang": spec.split(" ")[0], "clause": "termination:timeout"})
         ctx.oblige("run:explorer", False, out[-800:])
         return ctx.finish()
     specs = {}
